@@ -80,7 +80,10 @@ func workerMain(spec string) {
 			fmt.Println("    menu:", nm, per)
 		}
 		_, m := buildJobs(thorough, nil)
-		fmt.Printf("wire=%d prefix=%d keyed=%d raw=%d special=%d total=%d broken=%q\n", m.NWire, m.NPrefix, m.NKeyed, m.NRaw, m.NSpecial, m.Total, m.Broken)
+		fmt.Printf("wire=%d prefix=%d keyed=%d raw=%d special=%d local(1)=%d local(2a)=%d local(2b)=%d total=%d broken=%q\n", m.NWire, m.NPrefix, m.NKeyed, m.NRaw, m.NSpecial, m.Local.N1, m.Local.N2a, m.Local.N2b, m.Total, m.Broken)
+		for k, v := range m.Local.Writes {
+			fmt.Println("   ", k, len(v), v)
+		}
 		os.Exit(0)
 	case "replay":
 		raw, err := os.ReadFile(arg)
@@ -94,6 +97,13 @@ func workerMain(spec string) {
 			os.Exit(3)
 		}
 		mark(0)
+		if j.lf != nil {
+			fam := newLFFam()
+			fam.noDefer = true
+			runLFCase(j, res, fam)
+			fmt.Fprintln(os.Stderr, "replayed: local-transport case,", len(res.Viol), "violation(s)", res.Incomplete)
+			finish()
+		}
 		jo := runJob(j)
 		res.record(j, jo)
 		for i := range res.Viol {
@@ -107,6 +117,12 @@ func workerMain(spec string) {
 		for _, j := range jobs {
 			mark(j.idx)
 			selftestCrash(j)
+			if j.lf != nil {
+				fam := newLFFam()
+				fam.noDefer = true
+				runLFCase(j, res, fam)
+				continue
+			}
 			res.record(j, runJob(j))
 		}
 		finish()
@@ -126,53 +142,84 @@ func workerMain(spec string) {
 			fmt.Fprintln(os.Stderr, "worker: "+m.Broken)
 			os.Exit(3)
 		}
+		if os.Getenv("C32_ONLY_LOCAL") != "" { // developer aid: only the local-transport families
+			var keep []job
+			for _, j := range jobs {
+				if j.lf != nil {
+					keep = append(keep, j)
+				}
+			}
+			jobs = keep
+		}
 		P := envInt("C32_PAR")
 		if P < 1 {
 			P = 1
 		}
 		var suspects []job
 		var mu sync.Mutex
-		var next atomic.Int64
+		fam := newLFFam()
 		var stopped atomic.Bool
-		var wg sync.WaitGroup
-		for g := 0; g < P; g++ {
-			wg.Add(1)
-			go func(g int) {
-				defer wg.Done()
-				local := newResult()
-				for {
-					n := int(next.Add(1) - 1)
-					if n >= len(jobs) || stopped.Load() {
-						break
-					}
-					if n&63 == 0 && stop != "" {
-						if _, err := os.Stat(stop); err == nil {
-							stopped.Store(true)
+		// pool runs a list of cases on P goroutines and returns the local-transport cases that were put off because
+		// a suspect of their family was being confirmed at that moment (they are run in a later pass)
+		pool := func(jobs []job) (deferred []job) {
+			var next atomic.Int64
+			var wg sync.WaitGroup
+			for g := 0; g < P; g++ {
+				wg.Add(1)
+				go func(g int) {
+					defer wg.Done()
+					local := newResult()
+					for {
+						n := int(next.Add(1) - 1)
+						if n >= len(jobs) || stopped.Load() {
 							break
 						}
+						if n&63 == 0 && stop != "" {
+							if _, err := os.Stat(stop); err == nil {
+								stopped.Store(true)
+								break
+							}
+						}
+						j := jobs[n]
+						markSlot(g, j.idx)
+						selftestCrash(j)
+						if j.lf != nil {
+							// local-transport families carry their own guards, confirmation and family cut-off
+							if runLFCase(j, local, fam) {
+								mu.Lock()
+								deferred = append(deferred, j)
+								mu.Unlock()
+							}
+							continue
+						}
+						jo, ok := exec(j, 20*time.Second)
+						if !ok {
+							mu.Lock()
+							suspects = append(suspects, j)
+							mu.Unlock()
+							continue
+						}
+						local.record(j, jo)
 					}
-					j := jobs[n]
-					markSlot(g, j.idx)
-					selftestCrash(j)
-					jo, ok := exec(j, 20*time.Second)
-					if !ok {
-						mu.Lock()
-						suspects = append(suspects, j)
-						mu.Unlock()
-						continue
-					}
-					local.record(j, jo)
-				}
-				markSlot(g, -1)
-				mu.Lock()
-				res.merge(local)
-				mu.Unlock()
-			}(g)
+					markSlot(g, -1)
+					mu.Lock()
+					res.merge(local)
+					mu.Unlock()
+				}(g)
+			}
+			wg.Wait()
+			return deferred
 		}
-		wg.Wait()
+		for pass, todo := 0, jobs; len(todo) > 0 && !stopped.Load(); pass++ {
+			if pass == 3 {
+				fam.noDefer = true
+			}
+			todo = pool(todo)
+		}
 		res.Stopped = stopped.Load()
 		mark(-3) // re-running suspects
 		res.rerunSuspects(suspects)
+		res.Incomplete = append(res.Incomplete, fam.notes()...)
 		finish()
 	}
 	fmt.Fprintln(os.Stderr, "worker: bad spec", spec)
@@ -211,6 +258,9 @@ func spawn(spec string, env []string, dir string, tag string) workerRun {
 		}
 		if r.Reached == nil {
 			r.Reached = map[string][2]int64{}
+		}
+		if r.Counters == nil {
+			r.Counters = map[string]int64{}
 		}
 		out.res = &r
 		return out
@@ -275,12 +325,15 @@ func supervise(c *ev.Ctx) {
 	c.Rule("(1) wire faults — for each of 11 (thorough 20) configurations (TLS 1.0-1.3, RSA/ECDHE/DHE, client auth, resumption, zcrypto scan extras, ExternalClientHello, ClientFingerprintConfiguration+CertsOnly) the baseline transcript of real client<->real server (handshake + data phase), then EVERY fault of the menu {xor 01/80, set 00/ff at each offset (quick: every offset in the first 96 / last 24 bytes of each record, stride 5 elsewhere; coarser on the server flight of the two ClientHello-construction configurations), truncate, drop/dup/swap record, 13 inserted records at every boundary, record length/type/version values, handshake type/length values, record split/coalesce, read segmentation} as a single fault. " +
 		"(2) keyed faults — for each of 8 (thorough 16) keyed configurations (TLS 1.3 with each of its 3 suites incl. client auth, PSK resumption, tickets, ALPN/OCSP/SCT; TLS 1.0-1.2 with GCM, ChaCha20, CBC implicit/explicit IV, 3DES, RC4, renegotiation allowed) every PROTECTED record of the baseline (TLS 1.3: EncryptedExtensions, CertificateRequest, Certificate, CertificateVerify, Finished, NewSessionTicket, client Certificate/CertificateVerify/Finished, data, alerts; TLS<=1.2: both Finished, data, alerts) is opened in flight with the KeyLogWriter secrets, edited in plaintext and re-sealed under the receiver's keys and sequence number: drop, duplicate, swap/coalesce with the next record, fragmentation (quick 7 offsets, thorough every offset), other content types, unprotected delivery, delivery then close, TLS 1.3 padding/outer type, a handshake message of each of 24 types (empty / tiny) in front; per message: every body truncation with fixed-up and with stale header length (and stale + close), 8 header length values, trailing bytes, every inner length field {0,1,-1,+1,max}, every inner vector emptied / shortened / extended with all enclosing lengths adjusted, every body byte through {00,01,7f,80,ff,^01,^80}, the body under each other handshake type (quick: every offset of bodies <=40 bytes, else first 8/last 4, all bytes of and around length fields, stride 6; thorough: every offset); in front of data-phase records: KeyUpdate with every request byte 0..255 (+ empty, long, fragmented, coalesced, x15/16/17/33), NewSessionTicket variants, HelloRequest / ClientHello / ServerHello as renegotiation attempts, all 24 handshake types, alert level x description grid, empty and 16384/16385-byte fragments of every content type, 64 KiB handshake messages, unprotected records (quick: in front of the first data record of each direction, full menu in 3 configurations and a covering slice in the others; thorough: full menu at every data record). " +
 		"(3) raw peers — every 0,1,2-byte stream and 6^5 record headers x 4 tails against each role, and for every non-resuming configuration every record-boundary prefix of the peer's genuine stream (protected records included: the endpoints are deterministic) followed by each of 70 inserts and EOF, all sent at once. (4) SSLv3: client-only / server-only / both / SSLv3..TLS1.0 configurations and a raw SSLv3 ClientHello + 70 inserts against a server allowing SSLv3. " +
+		"(5) local transport failures — the net.Conn of the endpoint under test (EUT; client and server in turn, the peer being the real endpoint of the other role) is wrapped and its Write fails from some call onward with each error kind {permanent io.ErrClosedPipe, timeout net.Error, 1 / 5 / half / len-1 bytes written + error; thorough also ECONNRESET and a temporary net.Error}: (5.1) from EVERY transport write k of the fault-free run of every wire and keyed configuration (each handshake flight, CCS+Finished, tickets, every application-data record, close_notify) x 6 (thorough 11) kinds; (5.2) from the moment the EUT's Read begins to consume each keyed data-phase insert of (2): a first run (permanent error, EUT in Read) tells whether the insert elicits a transport write inside the Read that consumes it (KeyUpdate reply, alert for renegotiation attempts / unexpected handshake types / malformed KeyUpdate / NewSessionTicket to a server / unknown alert levels / oversized and odd records), and if so (quick: for the inserts of the covering slice, thorough: all and in front of every data record) 3 (thorough 6) kinds x {EUT in Read only, a concurrent Write parked in its transport write, a concurrent Close parked in its close_notify write} follow; (5.3) from the moment the EUT consumed the faulted bytes — so the alert it answers with fails — for every 5th fault of the wire menu and every 3rd non-insert fault of the keyed menu of (1)/(2) with the 3 kinds in rotation (thorough: the whole quick menus x each of the 3 kinds). After the fault the EUT goes on like an application whatever the calls return: Handshake, Write/Read (client) or Read/Write (server), Close, ConnectionState, GetHandshakeLog + json, OCSPResponse, Read, Write, CloseWrite, Close. " +
 		"A case is non-trivial when the fault was reached by the stream; distinct = distinct (config,fault). For (2) the edited record must authenticate at the receiver for at least one case of every (configuration, message) class, else the run is CHECK-BROKEN.")
 	c.Assume("transport blocking is detected structurally (both endpoints parked in Read with nothing in flight => transport closes both directions)",
 		"a 20 s wall-clock net only marks suspects, which are re-run 3x sequentially before being reported",
 		"deterministic Rand/Time: the baseline offsets are stable across runs and processes (verified per configuration by running the baseline twice in every process)",
 		"keyed faults: the proxy's record protection (tlsx/keyed.go, from RFC 8446/5246/5288/7905 on the Go standard library) is validated per configuration by a baseline in which EVERY record is re-sealed by the proxy and the handshake and data phase still complete",
-		"cases run in worker subprocesses; a worker that dies without a result is a violation (witness = case in flight)")
+		"cases run in worker subprocesses; a worker that dies without a result is a violation (witness = case in flight)",
+		"local transport failures: both parties parked in the transport are released by the stall detection; a party that has not finished after 5 s gets both directions closed by the harness, and one that has still not returned 1 s later without being inside a transport call is a suspect (blocked inside the library), re-run 3x with 8 s + 3 s guards before it is reported; a family x role is not explored further after its first confirmed hang",
+		"local transport failures: every planned failing write of (5.1) must be reached and carry what it carried in the baseline, every keyed configuration x role must have inserts that elicit a write, the concurrent Write / Close must have been parked, and alerts must be among the failed writes of (5.3), else the run is CHECK-BROKEN")
 
 	dir, err := os.MkdirTemp("", "c32-*")
 	if err != nil {
@@ -372,6 +425,10 @@ func supervise(c *ev.Ctx) {
 	c.Set("wire_fault_cases", m.NWire)
 	c.Set("keyed_cases", m.NKeyed)
 	c.Set("special_cases", m.NSpecial)
+	c.Set("local_write_failure_cases", m.Local.N1)
+	c.Set("peer_message_x_local_write_failure_inserts", m.Local.N2a)
+	c.Set("malformed_flight_x_local_write_failure_cases", m.Local.N2b)
+	c.Set("local_transport_writes_of_each_baseline", m.Local.Writes)
 	c.Set("configurations", len(confs(thorough)))
 	c.Set("keyed_configurations", len(kconfs(thorough)))
 	c.Set("total_cases", m.Total)
@@ -465,6 +522,33 @@ func supervise(c *ev.Ctx) {
 		}
 	}
 	c.Set("keyed_reached", table)
+	c.Set("local_transport_counters", total.Counters)
+	// non-vacuity of the local-transport families
+	if !total.Stopped && crashes == 0 && c.NViolations() == 0 && len(total.Incomplete) == 0 {
+		cn := total.Counters
+		var bad []string
+		if cn["lf1 connections"] != int64(m.Local.N1) || cn["lf1 NOT REACHED"] != 0 || cn["lf1 DIVERGED"] != 0 {
+			bad = append(bad, fmt.Sprintf("family (1): %d of %d planned connections ran, %d never reached the failing write, %d failed at another write than the baseline's", cn["lf1 connections"], m.Local.N1, cn["lf1 NOT REACHED"], cn["lf1 DIVERGED"]))
+		}
+		for _, kcf := range kconfs(thorough) {
+			for _, role := range []string{"client", "server"} {
+				if cn["lf2a elicits | "+kcf.name+" | "+role] == 0 {
+					bad = append(bad, "family (2a): no insert elicited a write of the "+role+" of "+kcf.name)
+				}
+			}
+		}
+		for _, st := range []string{"Write", "Close"} {
+			if cn["lf2a concurrent "+st+" parked in its transport write when the message arrived"] == 0 {
+				bad = append(bad, "family (2a): the concurrent "+st+" was never parked in its transport write")
+			}
+		}
+		if cn["lf2b alert write failed"] == 0 {
+			bad = append(bad, "family (2b): the failing write was never an alert")
+		}
+		if len(bad) > 0 {
+			c.Broken("local-transport families are vacuous: %s", strings.Join(bad, "; "))
+		}
+	}
 	if len(unreached) > 0 && !total.Stopped && crashes == 0 {
 		c.Broken("keyed faults never authenticated at the receiver for: %s", strings.Join(unreached, "; "))
 	}
